@@ -435,6 +435,19 @@ class Engine:
             s.add(f)
         s.add(extra)
         r = s.check()
+        if r == z3.unsat:
+            # z3 5.1's sequence solver has answered `unsat` on satisfiable formulas (about 1 run in 200 on some path
+            # conditions of ManifestFile.load; cvc5 --check-models confirms a model).  A path is pruned only when a second,
+            # independent run agrees; otherwise it is explored (never the other way round).
+            s2 = z3.Solver()
+            s2.set('timeout', self.feas_timeout_ms * 2)
+            s2.set('random_seed', 11)
+            for f in pc:
+                s2.add(f)
+            s2.add(extra)
+            if s2.check() != z3.unsat:
+                self.stats['feas_disagree'] = self.stats.get('feas_disagree', 0) + 1
+                r = z3.unknown
         res = (r != z3.unsat)
         self._feas_cache[key] = res
         # keep terms alive so that ids are not recycled
